@@ -5,9 +5,15 @@
 //! error), `to_quil_or_debug()` under catch_unwind, and for placeholder-free trees the re-parse of
 //! the text compared with the original (expressions and immediates by value at three generic
 //! assignments).  The tree's qubit / target positions in serializer visiting order go to Coq where
-//! the placeholder model and the verified checker are evaluated.
+//! the placeholder model and the verified checker are evaluated.  For a placeholder-free tree that the
+//! model AST of coq/Model/PrintParse.v can represent (plain instructions incl. PULSE / CAPTURE /
+//! RAW-CAPTURE / CALL, DEFCAL, DEFCAL MEASURE, DEFCIRCUIT, DEFFRAME, DEFWAVEFORM with literals in parsed
+//! form) the tree, the real tokens of the printed text and the real re-parse also go to Coq: printer
+//! model(tree) = tokens, parser model(tokens) = tree, real re-parse = tree.
 #[path = "../quilgen.rs"]
 mod quilgen;
+#[path = "../ppmodel.rs"]
+mod ppmodel;
 
 use indexmap::IndexMap;
 use num_complex::Complex64;
@@ -374,6 +380,22 @@ fn node(i: &Instruction) -> String {
     format!("NB [{}]", children.join("; "))
 }
 
+fn kind_name(i: &Instruction) -> &'static str {
+    match i {
+        Instruction::CalibrationDefinition(_) => "CalibrationDefinition",
+        Instruction::MeasureCalibrationDefinition(_) => "MeasureCalibrationDefinition",
+        Instruction::CircuitDefinition(_) => "CircuitDefinition",
+        Instruction::FrameDefinition(_) => "FrameDefinition",
+        Instruction::WaveformDefinition(_) => "WaveformDefinition",
+        Instruction::GateDefinition(_) => "GateDefinition",
+        Instruction::Pulse(_) => "Pulse",
+        Instruction::Capture(_) => "Capture",
+        Instruction::RawCapture(_) => "RawCapture",
+        Instruction::Call(_) => "Call",
+        _ => "fragment-of-C01",
+    }
+}
+
 fn has_placeholder(i: &Instruction) -> bool {
     node(i).contains("true")
 }
@@ -540,6 +562,25 @@ fn expr_class(i: &Instruction) -> Option<&'static str> {
     }
 }
 
+/// a literal with a negative-zero component: equal to (and printed as) the positive zero, and the
+/// parser's expression interning may even hand it back; the model AST has one zero only
+fn expr_has_neg_zero(e: &Expression) -> bool {
+    match e {
+        Expression::Number(c) => (c.re == 0.0 && c.re.is_sign_negative()) || (c.im == 0.0 && c.im.is_sign_negative()),
+        Expression::Prefix(p) => expr_has_neg_zero(&p.expression),
+        Expression::Infix(x) => expr_has_neg_zero(&x.left) || expr_has_neg_zero(&x.right),
+        Expression::FunctionCall(f) => expr_has_neg_zero(&f.expression),
+        _ => false,
+    }
+}
+
+fn has_neg_zero(i: &Instruction) -> bool {
+    let mut c = i.clone();
+    let mut es = Vec::new();
+    strip(&mut c, &mut es);
+    es.iter().any(expr_has_neg_zero)
+}
+
 fn known_class(i: &Instruction) -> Option<&'static str> {
     known_class0(i).or_else(|| expr_class(i))
 }
@@ -575,8 +616,19 @@ fn known_class0(i: &Instruction) -> Option<&'static str> {
                 UnresolvedCallArgument::Immediate(v) => v.re < 0.0 || v.im < 0.0 || (v.re != 0.0 && v.im != 0.0) || v.re.is_sign_negative() || v.im.is_sign_negative(),
                 _ => false,
             });
+            // a real immediate directly followed by an argument spelled `i` / `i[n]`
+            let then_i = c.arguments.windows(2).any(|w| {
+                matches!(&w[0], UnresolvedCallArgument::Immediate(v) if v.im == 0.0)
+                    && match &w[1] {
+                        UnresolvedCallArgument::Identifier(x) => x == "i",
+                        UnresolvedCallArgument::MemoryReference(m) => m.name == "i",
+                        _ => false,
+                    }
+            });
             if bad {
                 Some("call-immediate-sign")
+            } else if then_i {
+                Some("call-immediate-then-i")
             } else {
                 None
             }
@@ -624,13 +676,26 @@ fn run_case(run: &mut Run, i: &Instruction, class: &str, mutant: u32) {
     let mut dbg_ok = matches!(&dbg, Ok(s) if !s.is_empty());
     let mut reparse: Option<bool> = None;
     let mut text = String::new();
+    let mut frag: Option<String> = None;
     if !ph {
         if let Ok(t) = i.to_quil() {
             text = t.clone();
-            reparse = Some(match Instruction::from_str(&t) {
-                Ok(j) => equivalent(i, &j),
+            let parsed = Instruction::from_str(&t);
+            reparse = Some(match &parsed {
+                Ok(j) => equivalent(i, j),
                 Err(_) => false,
             });
+            // model comparison (waveform parameter keys are interned first: key order)
+            let mut it = quilgen::Interner::default();
+            ppmodel::preintern(std::slice::from_ref(i), &mut it);
+            let a = if has_neg_zero(i) { None } else { ppmodel::item(i, &mut it) };
+            if let (Some(a), Some(toks)) = (a, quilgen::tokens_to_coq(&t, &mut it)) {
+                let j = match parsed.ok().and_then(|j| ppmodel::item(&j, &mut it)) {
+                    Some(j) => format!("(Some ({j}))"),
+                    None => "None".to_string(),
+                };
+                frag = Some(format!("(Some ({a}, {toks}, {j}))"));
+            }
         } else {
             reparse = Some(false);
         }
@@ -672,7 +737,44 @@ fn run_case(run: &mut Run, i: &Instruction, class: &str, mutant: u32) {
         None => "None".to_string(),
         Some(b) => format!("(Some {b})"),
     };
-    let coq = format!("({tree}, {res}, {dbg_ok}, {rp})");
+    // 5 (emulated): the serializer prints waveform parameters in insertion order instead of sorted
+    if mutant == 5 {
+        if let (Some(f), Instruction::Pulse(p)) = (&mut frag, i) {
+            let keys: Vec<&String> = p.waveform.parameters.keys().collect();
+            if keys.len() == 2 && keys[0] > keys[1] {
+                let mut q = p.clone();
+                q.waveform.parameters.sort_keys();
+                // the text a sorting serializer would not have printed: swap the two `k: e` groups
+                let e0 = p.waveform.parameters[0].to_quil_or_debug();
+                let e1 = p.waveform.parameters[1].to_quil_or_debug();
+                let swapped = text.replacen(&format!("{}: {e1}, {}: {e0}", keys[1], keys[0]), &format!("{}: {e0}, {}: {e1}", keys[0], keys[1]), 1);
+                let mut it = quilgen::Interner::default();
+                ppmodel::preintern(std::slice::from_ref(i), &mut it);
+                if let (Some(a), Some(toks)) = (ppmodel::item(i, &mut it), quilgen::tokens_to_coq(&swapped, &mut it)) {
+                    *f = format!("(Some ({a}, {toks}, (Some ({a}))))");
+                }
+            }
+        }
+    }
+    // 6 (emulated): DEFCAL MEASURE drops the target name when printing
+    if mutant == 6 {
+        if let (Some(f), Instruction::MeasureCalibrationDefinition(d)) = (&mut frag, i) {
+            if let Some(tn) = &d.identifier.target {
+                let dropped = text.replacen(&format!(" {tn}:"), ":", 1);
+                let mut it = quilgen::Interner::default();
+                ppmodel::preintern(std::slice::from_ref(i), &mut it);
+                if let (Some(a), Some(toks)) = (ppmodel::item(i, &mut it), quilgen::tokens_to_coq(&dropped, &mut it)) {
+                    let j = Instruction::from_str(&dropped).ok().and_then(|j| ppmodel::item(&j, &mut it));
+                    *f = format!("(Some ({a}, {toks}, {}))", j.map(|j| format!("(Some ({j}))")).unwrap_or("None".into()));
+                }
+            }
+        }
+    }
+    run.count(if frag.is_some() { "model-compared" } else if ph { "model-skipped:placeholder" } else { "model-skipped:not-representable" });
+    if frag.is_some() {
+        run.count(&format!("modelled:{}", kind_name(i)));
+    }
+    let coq = format!("(({tree}, {res}, {dbg_ok}, {rp}), {})", frag.as_deref().unwrap_or("None"));
     let desc = if ph { format!("{class} {}", i.to_quil_or_debug().replace('\n', "\\n")) } else { format!("{class} {}", text.replace('\n', "\\n")) };
     run.count(&format!("{class}:{}:{}", if ph { "placeholder" } else { "concrete" }, res));
     if let Some(false) = reparse {
@@ -702,8 +804,8 @@ fn main() {
         }
     }));
     let mutant: u32 = std::env::var("QV_MUTANT").ok().and_then(|s| s.parse().ok()).unwrap_or(0);
-    let header = "From Coq Require Import List NArith.\nFrom QV Require Import Model.PrintParse.\nImport ListNotations.\nOpen Scope N_scope.";
-    let mut run = Run::new(&args.out, header, "ph_case", "ph_failing", 1500);
+    let header = "From Coq Require Import List NArith ZArith.\nFrom QV Require Import Model.ParsePanic Model.PrintParse.\nImport ListNotations.\nOpen Scope N_scope.";
+    let mut run = Run::new(&args.out, header, "phx_case", "phx_failing", 1000);
     let thorough = args.thorough();
     let mut rng = Rng::new(args.seed);
 
@@ -797,6 +899,16 @@ fn main() {
         run_case(&mut run, &Instruction::Delay(Delay::new(sym, vec![], q0.clone())), "delay-symbolic", mutant);
         let im = g.number();
         run_case(&mut run, &Instruction::Call(Call::try_new("foo".into(), vec![UnresolvedCallArgument::Immediate(im)]).unwrap()), "call-immediate", mutant);
+        // a real immediate followed by an argument spelled `i` (and the harmless neighbours: an
+        // imaginary immediate before `i`, `i` before an immediate, another identifier)
+        {
+            let re = Complex64::new(g.real(), 0.0);
+            let imm = UnresolvedCallArgument::Immediate(if g.r.chance(1, 4) { Complex64::new(0.0, 2.5) } else { re });
+            let nm = ["i", "i", "I", "pi", "x"][g.r.below(5)].to_string();
+            let second = if g.r.chance(1, 2) { UnresolvedCallArgument::Identifier(nm) } else { UnresolvedCallArgument::MemoryReference(MemoryReference::new(nm, g.r.below(3) as u64)) };
+            let args = if g.r.chance(1, 4) { vec![second, imm] } else { vec![imm, second] };
+            run_case(&mut run, &Instruction::Call(Call::try_new("foo".into(), args).unwrap()), "call-then-i", mutant);
+        }
         let v = [1.0, 2.0, 1e300, -3.0, 1e15, 1e16, 0.0, -0.0, 1e-300, 5e-324][g.r.below(10)];
         run_case(&mut run, &Instruction::Move(Move::new(MemoryReference::new("ro".into(), 0), ArithmeticOperand::LiteralReal(v))), "integral-real", mutant);
         let f = FrameIdentifier::new("a".into(), q0.clone());
